@@ -108,15 +108,16 @@ RT_ASA = {"entry": M + "/pkg/asa.VerifRoutesASA", "quick": {"N": "2"}, "thorough
 RT_IOS = {"entry": M + "/pkg/ios.VerifRoutesIOS", "quick": {"N": "2"}, "thorough": {"N": "2"}, "extra": {"maxpaths": 3000000}, "covers": ["replace in one transaction", "no change reported"]}
 _rt_text = " Routes (asa.VerifRoutesASA / ios.VerifRoutesIOS): device and target route sets are solver-chosen (2 IPv4 destinations x 3 hops; IOS global table and VRF v1 with several routes per destination, ASA one IPv6 destination), parsed by the real parser, planned by the real GetChanges / diffCmds / diffRoutes, executed on a routing table model; managed VRFs / address families must equal the target, unmanaged ones stay untouched, every destination routed before and after stays routed at every step, second compare silent."
 _graph_dmz = {"entry": ASA_GRAPH, "params": {"part": "dmz"}, "covers": ["interface unknown to Netspoc on device", "unknown interface is shut down", "unknown interface with in and out access-group"]}
+_graph_crypto = {"entry": ASA_GRAPH, "params": {"part": "crypto"}, "extra": {"maxpaths": 1000000}, "covers": ["crypto map on device", "crypto map on target", "crypto map entry with two transform-sets"]}
 _graph_cert = {"entry": ASA_GRAPH, "params": {"part": "cert"}, "covers": ["certificate map binding on device", "certificate map binding in target"]}
-_graph_text = " ASA VPN object graph (asa.VerifASAGraph): device and target assembled from solver-selected blocks (VPN user -> group-policy of two commands -> vpn-filter ACL of 2..3 lines and address pool; left-over generated group-policy chain; manually created ldap attribute-map + aaa-server, group-policy and tunnel-group referencing generated or manual objects; part dmz: an interface unknown to Netspoc, shut down or not, with inbound and optional outbound access-group, ACL names with/without -DRC-, manual object-group; part cert: certificate map + tunnel-group bound by tunnel-group-map with changed subject-name / trust-point), parsed by the real parser, planned by the real GetChanges (diffConfig, addCmds, delCmds, deleteUnused, markDeleted), executed on a text-level ASA store that enforces referential integrity and sub-mode rules; anchors must expand to the same name-free content as the target, objects outside Netspoc's scope must stay byte-identical, second compare silent."
+_graph_text = " ASA VPN object graph (asa.VerifASAGraph): device and target assembled from solver-selected blocks (VPN user -> group-policy of two commands -> vpn-filter ACL of 2..3 lines and address pool; left-over generated group-policy chain; manually created ldap attribute-map + aaa-server, group-policy and tunnel-group referencing generated or manual objects; part dmz: an interface unknown to Netspoc, shut down or not, with inbound and optional outbound access-group, ACL names with/without -DRC-, manual object-group; part cert: certificate map + tunnel-group bound by tunnel-group-map with changed subject-name / trust-point; part crypto: crypto map bound to an interface with 0..2 entries per side keyed by peer, match address ACL, list of 1..2 transform-sets whose definition may change, optional pfs), parsed by the real parser, planned by the real GetChanges (diffConfig, addCmds, delCmds, deleteUnused, markDeleted), executed on a text-level ASA store that enforces referential integrity and sub-mode rules; anchors must expand to the same name-free content as the target, objects outside Netspoc's scope must stay byte-identical, second compare silent."
 NSX = M + "/pkg/nsx.VerifNSX"
 
 PROPS["C01"] = {
     "explanation": _cisco_level + " C01 (ASA): interface ACL with plain lines and lines referencing network object-groups (solver-chosen members), device groups with generated names, left-over generated group, unmanaged group; the script is executed on an ASA model ('line N' inserts/deletes, joined moves, object-group member edits, transfers with fresh -DRC- names, rebinding of access-group, clear configure); final ACL must filter like the target with groups expanded, second compare silent, 'no change' only for an equivalent device.",
     "bounds": {"quick": "ASA: 1 interface ACL, device lines n<=2, target lines 1<=m<=2, 6 plain lines + permit/deny lines referencing 1 object-group per side with 1..2 members of 3 hosts, left-over generated group, unmanaged group, 8 packet classes",
                "thorough": "as quick with 2 object-groups per side (group reuse, identical groups, split groups); n,m<=3 with 1 group"},
-    "outside": "crypto maps, webvpn anchors, VPN objects beyond the one user chain of the graph harness, service/protocol object-groups, several ACLs and interfaces, IPv6, sizes above the bounds, real device behaviour beyond the model's rules",
+    "outside": "dynamic crypto maps, ikev2 proposals, webvpn anchors, VPN objects beyond the one user chain of the graph harness, service/protocol object-groups, several ACLs and interfaces, IPv6, sizes above the bounds, real device behaviour beyond the model's rules",
     "selftest": "asa_(acl|parse)", "selftest_thorough": "asa_",
     "runs": [
         {"entry": ASA_ACL, "quick": {"N": "2", "K": "6", "G": "1"}, "thorough": {"N": "2", "K": "6", "G": "2"},
@@ -124,7 +125,7 @@ PROPS["C01"] = {
          "covers": ["move emitted (joined delete+add)", "object-group membership edited", "changes emitted", "no change reported"]},
         {"entry": ASA_ACL, "quick": {"N": "1", "K": "8", "G": "1"}, "thorough": {"N": "3", "K": "6", "G": "1"}, "extra": {"maxpaths": 3000000}},
         dict(_graph_run, covers=["managed VPN user on device", "VPN user in target", "changes emitted", "no change reported"]),
-        _graph_cert, _graph_dmz, RT_ASA,
+        _graph_cert, _graph_dmz, _graph_crypto, RT_ASA,
     ],
 }
 PROPS["C01"]["explanation"] += _graph_text + _rt_text
@@ -157,7 +158,7 @@ PROPS["C07"]["explanation"] += _graph_text + _rt_text
 for _p in ("C08", "C14"):
     PROPS[_p]["runs"] = PROPS[_p]["runs"] + [
         {"entry": ASA_ACL, "quick": {"N": "2", "K": "6", "G": "1"}, "thorough": {"N": "2", "K": "6", "G": "2"}, "extra": {"maxpaths": 3000000}}]
-PROPS["C08"]["runs"] = PROPS["C08"]["runs"] + [_graph_run, _graph_dmz, _graph_cert, RT_ASA, RT_IOS]
+PROPS["C08"]["runs"] = PROPS["C08"]["runs"] + [_graph_run, _graph_dmz, _graph_cert, _graph_crypto, RT_ASA, RT_IOS]
 PROPS["C14"]["runs"] = PROPS["C14"]["runs"] + [RT_ASA, RT_IOS]
 PROPS["C02"]["runs"] = PROPS["C02"]["runs"] + [RT_IOS]
 for _p in ("C02", "C08", "C14"):
